@@ -38,14 +38,21 @@ pub fn j_to_limbs(v: &Value, n: usize) -> Vec<u64> {
     limbs
 }
 
-/// Build a Uint from a scenario value without going through any of the
-/// byte/limb-slice constructors under test (only `from_limbs`).
+/// Build a Uint from a scenario value without going through ANY constructor under test: the limbs are written
+/// straight into a zero value (`as_limbs_mut` hands out the array), after the harness itself has checked that the
+/// scenario value is canonical.  A change to `from_limbs` & co. must show up in the recorded calls, never as a panic
+/// of the harness while it is still loading its inputs (that would be reported as a tool error, not as a violation).
 pub fn j_to_uint<const B: usize, const L: usize>(v: &Value) -> Uint<B, L> {
     let limbs = j_to_limbs(v, L);
     assert!(limbs.len() == L, "scenario value does not fit {B} bits");
-    let mut arr = [0u64; L];
-    arr.copy_from_slice(&limbs);
-    Uint::from_limbs(arr)
+    if L > 0 {
+        let mask = if B % 64 == 0 { u64::MAX } else { (1u64 << (B % 64)) - 1 };
+        assert!(limbs[L - 1] <= mask, "scenario value does not fit {B} bits");
+    }
+    let mut u = Uint::<B, L>::ZERO;
+    // SAFETY: the limbs were just checked to be canonical for this width.
+    unsafe { u.as_limbs_mut().copy_from_slice(&limbs) };
+    u
 }
 
 pub fn j_to_u128(v: &Value) -> u128 {
